@@ -338,6 +338,14 @@ def compare_stored_gtf(converted_gtfs, gtf_filename, genedb_filename):
             os.path.exists(genedb_filename) and os.path.getmtime(genedb_filename) == db_mtime)
 
 
+def save_config(config_path, config):
+    # several IsoQuant runs may share these files: never let another run see a partially written config
+    tmp_config_path = "%s.%d.tmp" % (config_path, os.getpid())
+    with open(tmp_config_path, 'w') as f_out:
+        json.dump(config, f_out)
+    os.replace(tmp_config_path, config_path)
+
+
 def convert_db(gtf_filename, genedb_filename, convert_fn, args):
     genedb_filename = os.path.abspath(genedb_filename)
 
@@ -366,8 +374,7 @@ def convert_db(gtf_filename, genedb_filename, convert_fn, args):
         'db_mtime': os.path.getmtime(genedb_filename),
         'complete_db': args.complete_genedb
     }
-    with open(args.db_config_path, 'w') as f_out:
-        json.dump(converted_gtfs, f_out)
+    save_config(args.db_config_path, converted_gtfs)
     return gtf_filename, genedb_filename
 
 
